@@ -19,9 +19,9 @@ generated Go transcoders `ReadResult<SRC>WriteResult<DST>` (and, on the implemen
 * **TL1 → TL2 → TL1** (`result_tl1_tl2_tl1_partial`): reproduces the consumed result bytes.  Inherited guards, stated
   explicitly: from C02 (`tl1_canonical_on`) a reference-closed set of instances around the result type without map-backed
   dictionary and without `bit`; from C03/C04 (`tl2_roundtrip_gen`) `Good` **at `zeroIfEmpty = true`** — the result is itself
-  written with the empty optimisation, so a function returning `Double` loses `-0.0` at top level
-  (`result_tl1_tl2_tl1_fails_at`); the encoding must be shorter than 2^63 bytes.  `Good` excludes exactly the inherited
-  counter-examples: float `-0.0` in an empty-test position, `bit` behind an alias / Maybe, optional field of an empty struct.
+  written with the empty optimisation (a function returning `Double` used to lose `-0.0` at top level; the generated code now
+  tests floats with `(x != 0 || 1/x < 0)`, see `result_tl1_tl2_tl1_negzero_at`); the encoding must be shorter than 2^63 bytes.  `Good` excludes exactly the inherited
+  counter-examples: `bit` behind an alias / Maybe, optional field of an empty struct.
 * **TL1 → JSON → TL1** (`result_tl1_json_tl1_partial`): C05 proves the JSON round trip for primitives only (composite
   types are explored by its tie), so the statement inherits it as the explicit hypothesis `JsonRoundTripsAt` (C05's
   `JsonRoundTrip` at one value) next to C02's guard; `result_tl1_json_tl1_bool` discharges the hypothesis for functions
@@ -235,9 +235,9 @@ theorem result_tl1_tl2_tl1_partial (cfg : Cfg) (d : Desc) (S : Nat → Bool) (hc
     simp only [writeTL1Z_of_writeTL1 d fuel _ _ _ _ _ hw1]
     rfl
 
-/-! ### the inherited counter-example: `-0.0` -/
+/-! ### the former inherited counter-example: `-0.0` (now preserved) -/
 
-/-- the full-strength statement -/
+/-- the full-strength statement (not proved: it needs the guards of `result_tl1_tl2_tl1_partial`; the `-0.0` counter-example is gone) -/
 def ResultTL1TL2TL1 : Prop :=
   ∀ (cfg : Cfg) (d : Desc) (fuel : Nat) (f : FnD) (req : Val) (bs w2 rest : Bytes), f.resultAlias = false →
     transcode cfg d fuel f req .tl1 .tl2 (.bytes bs) = .ok (.bytes w2, rest) →
@@ -253,30 +253,23 @@ def dblFn : Desc :=
 
 def dblF : FnD := { s := { tag := 2, nparams := 0, hasTL2 := true, isFunction := true, resultTy := 1, fields := [] } }
 
-/-- **L2 at the top of a result.** A function returning `Double`: the result `-0.0` is "empty" for `WriteResultTL2` (the result
-is written with `zeroIfEmpty`), travels as the single byte `00`, and comes back as `+0.0`. -/
-theorem result_tl1_tl2_tl1_fails_at :
-    transcode {} dblFn 4 dblF (.struct []) .tl1 .tl2 (.bytes [1, 0, 0, 0, 0, 0, 0, 0, 0, 0, 0, 0x80]) = .ok (.bytes [0], []) ∧
-    transcode {} dblFn 4 dblF (.struct []) .tl2 .tl1 (.bytes [0]) = .ok (.bytes [1, 0, 0, 0, 0, 0, 0, 0, 0, 0, 0, 0], []) := by
+/-- **`-0.0` at the top of a result** (the former counter-example L2). A function returning `Double`: the result is written with
+`zeroIfEmpty`, and since the generated code tests floats with `(x != 0 || 1/x < 0)` the result `-0.0` is not empty: it travels
+as its eight bytes and comes back as `-0.0`. -/
+theorem result_tl1_tl2_tl1_negzero_at :
+    transcode {} dblFn 4 dblF (.struct []) .tl1 .tl2 (.bytes [1, 0, 0, 0, 0, 0, 0, 0, 0, 0, 0, 0x80]) =
+      .ok (.bytes [9, 2, 0, 0, 0, 0, 0, 0, 0, 0x80], []) ∧
+    transcode {} dblFn 4 dblF (.struct []) .tl2 .tl1 (.bytes [9, 2, 0, 0, 0, 0, 0, 0, 0, 0x80]) =
+      .ok (.bytes [1, 0, 0, 0, 0, 0, 0, 0, 0, 0, 0, 0x80], []) := by
   constructor
   · rfl
-  · simp [transcode, dblF, resultArgs, natArgVals, decodeResult, readResultTL2, sliceBody_zero, zeroVal, dblFn, Desc.get?,
-      zeroFieldsWith, fieldOptional, zeroPrim, encodeResult, writeResultTL1, writeTL1Z, writeFieldsZWith, fieldPresent,
-      writePrim, u32le, u64le, byteOf, Except.map]
+  · simp [transcode, dblF, resultArgs, natArgVals, decodeResult, readResultTL2, sliceBody, parseSize, tl2ParseSize, liftP,
+      readHead, readByte, readTL2, readPrim2, readU64, readU32, testBit, zeroVal, dblFn, Desc.get?,
+      zeroPrim, encodeResult, writeResultTL1, writeTL1Z, writeFieldsZWith, fieldPresent,
+      writePrim, u32le, u64le, byteOf, Except.map, mediumMarker_eq]
 
-theorem result_tl1_tl2_tl1_fails : ¬ ResultTL1TL2TL1 := by
-  intro h
-  obtain ⟨h1, h2⟩ := result_tl1_tl2_tl1_fails_at
-  obtain ⟨pre, hp, ht⟩ := h _ _ _ _ _ _ _ _ rfl h1
-  rw [h2] at ht
-  injection ht with ht
-  injection ht with ht _
-  injection ht with ht
-  subst ht
-  simp at hp
-
-/-- the guard is what excludes it: `-0.0` at the top of the result is not `Good` at `zeroIfEmpty = true`, `1.0` is -/
-example : goodPrim .f64 true (.nat 0x8000000000000000) = false ∧ goodPrim .f64 true (.nat 0x3FF0000000000000) = true := ⟨rfl, rfl⟩
+/-- `-0.0` at the top of the result is `Good` at `zeroIfEmpty = true` (it used to be the excluded value), like `1.0` -/
+example : goodPrim .f64 true (.nat 0x8000000000000000) = true ∧ goodPrim .f64 true (.nat 0x3FF0000000000000) = true := ⟨rfl, rfl⟩
 
 /-- the same function, result `1.0`: both transcoders, bytes reproduced -/
 example :
